@@ -134,7 +134,7 @@ Definition oinfo_of (ss : list session) (o : Z) : option oinfo :=
   end.
 
 (* ---------- the running cache: map + free slots (what decides which slots a store writes) ---------- *)
-Inductive astate := AEmpty | AReadable.
+Inductive astate := AEmpty | AReadable | AMarked.   (* AMarked = waitingToBeFreed: unreadable, chain still allocated *)
 Record anchor := mkAnchor { a_state : astate; a_key : key; a_start : Z; a_swapsz : Z }.
 Record slice := mkSlice { sl_size : Z; sl_next : Z }.
 Record mem := mkMem { m_anch : Z -> anchor; m_sl : Z -> slice; m_free : Z -> bool }.
@@ -163,7 +163,7 @@ Fixpoint free_chain (fuel : nat) (i : Z) (m : mem) : mem :=
 Definition free_anchor (N : Z) (f : Z) (m : mem) : mem :=
   match a_state (m_anch m f) with
   | AEmpty => m
-  | AReadable =>
+  | _ =>
     let m1 := free_chain (S (Z.to_nat N)) (a_start (m_anch m f)) m in
     mkMem (upd (m_anch m1) f anchor0) (m_sl m1) (m_free m1)
   end.
@@ -193,7 +193,9 @@ Fixpoint link_chain (slots : list Z) (sizes : list Z) (sl : Z -> slice) : Z -> s
 
 Inductive op :=
 | OStore (k : key) (o ver len mlen ssz : Z)    (* a cacheable miss (or reload) for this key completes swap-out *)
-| OPurge (k : key).                            (* the entry is evicted (PURGE) *)
+| OPurge (k : key).                            (* PURGE: StoreMap::freeEntry on an anchor the purging request itself holds
+                                                  open for reading only MARKS it (waitingToBeFreed); its slots return to
+                                                  the free set when the anchor is next opened for writing *)
 
 Definition nslots (P len : Z) : Z := (len + P - 1) / P.
 
@@ -202,11 +204,14 @@ Definition step_op (N P : Z) (m : mem) (x : op) : mem * option session :=
   match x with
   | OPurge k =>
     let f := fileno_of N k in
-    if match a_state (m_anch m f) with AReadable => key_eqb (a_key (m_anch m f)) k | AEmpty => false end
-    then (free_anchor N f m, None) else (m, None)
+    let a := m_anch m f in
+    if match a_state a with AReadable => key_eqb (a_key a) k | _ => false end
+    then (mkMem (upd (m_anch m) f (mkAnchor AMarked (a_key a) (a_start a) (a_swapsz a))) (m_sl m) (m_free m), None)
+    else (m, None)
   | OStore k o ver len mlen ssz =>
     let f := fileno_of N k in
-    (* forcePublicKey releases the old entry with this key; openForWritingAt frees any other occupant *)
+    (* openForWritingAt(fileno, overwriteExisting = true) frees whatever occupies (or is marked at) the anchor: the
+       previous version of this key, or another key hashing to the same fileno *)
     let m1 := free_anchor N f m in
     match pop_n N (Z.to_nat (nslots P len)) m1 with
     | None => (m1, None)      (* out of slots: not modelled (ample space) *)
@@ -449,7 +454,10 @@ Definition hit (s : rst) (k : key) : option (list atom) :=
     if key_eqb (la_key e) k then
       let content := firstn (Z.to_nat (la_swapsz e)) (read_chain fuelN s (la_start e)) in
       match parse_meta oi (firstn (Z.to_nat dc_page_size) content) with
-      | Some info => if key_eqb (o_key info) k then Some content else None
+      | Some info =>
+        (* the reply header of that object frames the message: the client reads Content-Length body bytes, i.e. at
+           most o_len bytes of the stored stream *)
+        if key_eqb (o_key info) k then Some (firstn (Z.to_nat (o_len info)) content) else None
       | None => None
       end
     else None
@@ -479,7 +487,8 @@ Fixpoint segments (l : list atom) (acc : list (Z * Z * Z)) : list (Z * Z * Z) :=
   | (o, i) :: r =>
     match acc with
     | (o', i', n') :: acc' =>
-      if (o =? o') && (i =? i' + n') then segments r ((o', i', n' + 1) :: acc') else segments r ((o, i, 1) :: acc)
+      if (o =? o') && ((o =? 0) || (i =? i' + n')) then segments r ((o', i', n' + 1) :: acc')
+      else segments r ((o, i, 1) :: acc)
     | [] => segments r [(o, i, 1)]
     end
   end.
